@@ -220,13 +220,17 @@ def _short(a):
 # program build / replay
 
 
-def build_program(case, upto=None):
-    """Rebuild a recorded program.  Returns (pool_dask, pool_numpy)."""
+def build_program(case, upto=None, strict=False):
+    """Rebuild a recorded program.  Returns (pool_dask, pool_numpy).  With
+    ``strict`` an op outside its applicability condition raises (programs that
+    were not recorded by the explorer, which filters on the condition)."""
     import dask_array as da
 
     npool, dpool = make_pool(case["source"])
     for opname, idxs in case["steps"][: upto if upto is not None else len(case["steps"])]:
         op = OPS.BY_NAME[opname]
+        if strict and not op.applies(*[npool[i] for i in idxs]):
+            raise ValueError(f"op {opname} does not apply to these operands")
         _set_ch(dpool, idxs)
         nv = op.numpy(*[npool[i] for i in idxs])
         dv = op.dask(da, *[dpool[i] for i in idxs])
